@@ -6,6 +6,8 @@ mod printer;
 mod router;
 mod server;
 mod threadpool;
+#[cfg(khttp_verif)]
+pub mod verif;
 
 pub use body_reader::BodyReader;
 pub use http::{Headers, Method, RequestUri, Status};
